@@ -120,8 +120,19 @@ func (e *scriptExec) Run() error {
 	return errors.New("scripted failure")
 }
 
+// freeExec: the filler steps of a big DAG (acase.Extra): they succeed at once and are not part of the scripted world
+type freeExec struct{}
+
+func (freeExec) SetStdout(io.Writer)  {}
+func (freeExec) SetStderr(io.Writer)  {}
+func (freeExec) Kill(os.Signal) error { return nil }
+func (freeExec) Run() error           { return nil }
+
 func init() {
 	executor.Register("verifscript", func(_ context.Context, step dag.Step) (executor.Executor, error) {
+		if v, ok := step.ExecutorConfig.Config["free"].(bool); ok && v {
+			return freeExec{}, nil
+		}
 		idx := int(step.ExecutorConfig.Config["idx"].(float64))
 		w := W
 		w.mu.Lock()
@@ -160,6 +171,10 @@ type acase struct {
 	StopVia   string `json:"stopVia,omitempty"` // "api" | "os"
 	CleanupMs int    `json:"cleanupMs,omitempty"`
 	Auto      bool   `json:"auto,omitempty"` // free-running: executors return at once (stress of the final record)
+	// big DAG: `extra` filler steps x0.. (each depends on s0, succeeds at once, not scripted) whose definition carries `pad`
+	// bytes of command text: the status document the agent's socket answers with grows to extra * (~500 + pad) bytes
+	Extra int `json:"extra,omitempty"`
+	Pad   int `json:"pad,omitempty"`
 }
 
 type stopReport struct {
@@ -192,6 +207,7 @@ type point struct {
 	Flight []int          `json:"fl"`
 	Ended  map[string]int `json:"ended"` // node -> 1 ok / 2 fail (last finished attempt)
 	Starts map[string]int `json:"starts"`
+	Doc    int            `json:"doc,omitempty"` // big DAG: bytes of the status document behind the live view
 }
 
 type result struct {
@@ -288,6 +304,12 @@ func runCase(c acase) (res result) {
 		}
 		d.Steps = append(d.Steps, s)
 	}
+	for j := 0; j < c.Extra && len(c.Nodes) > 0; j++ {
+		pad := strings.Repeat("x", c.Pad)
+		d.Steps = append(d.Steps, dag.Step{Name: fmt.Sprintf("x%d", j), Depends: []string{"s0"},
+			Command: "true", Args: []string{pad}, CmdWithArgs: "true " + pad,
+			ExecutorConfig: dag.ExecutorConfig{Type: "verifscript", Config: map[string]any{"free": true}}})
+	}
 	hs := func(h int) *dag.Step {
 		if c.Handlers[h] == 0 {
 			return nil
@@ -315,6 +337,11 @@ func runCase(c acase) (res result) {
 		var p point
 		st, err := cli.GetLatestStatus(d)
 		p.Live = toView(st, err, n)
+		if c.Extra > 0 && st != nil {
+			if b, e := st.ToJSON(); e == nil {
+				p.Doc = len(b)
+			}
+		}
 		// what is persisted right now, read the way GetLatestStatus reads it when no socket answers
 		ps, perr := jsondb.New(dataDir, false).ReadStatusToday(d.Location)
 		if ps != nil {
